@@ -390,7 +390,7 @@ static void cmd_gssvx(kv_t *K)
     ckpr = cks_perm(S.perm_r, n); ckpc = cks_perm(S.perm_c, n);
     if (S.haveLU) { SCPformat *Ls = (SCPformat *) S.L.Store; ckL = fnv(Ls->nzval_colbeg, sizeof(int_t) * n) ^ fnv(Ls->rowind_colbeg, sizeof(int_t) * n) ^ (unsigned long) Ls->nnz; }
     live0 = vrt_mem_live_count(); thr0 = vrt_thread_count(); vrt_xerbla_reset();
-    vrt_log_raw("\"e\":\"CallBegin\",\"call\":\"gssvx\"");
+    vrt_log_raw("\"e\":\"CallBegin\",\"call\":\"gssvx\",\"refact\":%d", (fact != FACTORED && refact) ? 1 : 0);
     vrt_mem_scope(1);
     PG(gssvx)(P, &S.opt, &S.A, S.perm_c, S.perm_r, &S.equed, S.R, S.C, &S.L, &S.U, &B, &X, &rpg, &rcond, ferr, berr, &mu, &info);
     vrt_mem_scope(0);
@@ -628,7 +628,7 @@ static void cmd_sfactor(kv_t *K)
     StatAlloc(n, P, sp_ienv(1), sp_ienv(2), &Gstat); StatInit(n, P, &Gstat);
     ckA = cks_A(); ckpc = cks_perm(S.perm_c, n); vrt_xerbla_reset();
     live0 = vrt_mem_live_count(); thr0 = vrt_thread_count();
-    vrt_log_raw("\"e\":\"CallBegin\",\"call\":\"sfactor\"");
+    vrt_log_raw("\"e\":\"CallBegin\",\"call\":\"sfactor\",\"refact\":%d", S.ses_refact ? 1 : 0);
     vrt_mem_scope(1);
     PG(gstrf)(&S.sopt, &S.AC, S.perm_r, &S.L, &S.U, &Gstat, &info);
     vrt_mem_scope(0);
